@@ -444,9 +444,14 @@ func (env *Env) call(e *Expr) SV {
 		o := env.inOld()
 		// parameters keep their entry values in old(); locals are not available
 		o.cells = env.cells
+		n0 := len(o.st.assume)
 		r := o.eval(e.Args[0])
 		if o.err != nil {
 			env.err = o.err
+		}
+		if o.st != env.st && len(o.st.assume) > n0 {
+			// facts learned while reading the old state (type invariants, pure-call results)
+			env.st.add(o.st.assume[n0:]...)
 		}
 		return r
 	case "len":
